@@ -138,6 +138,10 @@ func vfRunReinitLLA(t *testing.T, out *vfh.Out, tf time.Duration, dials []vfRein
 	synctest.Test(t, func(t *testing.T) {
 		st := &vfState{forwarding: true}
 		cfg := vfAdvConfig(200*time.Second, 600*time.Second, false, 1800*time.Second)
+		// a plugin that, like the `::/64`, `::/0` and `::` wildcards, binds its source of system state to
+		// the interface it is PREPARED for (the wildcards capture ifi.Index for their rtnetlink dumps):
+		// what it contributes to an RA tells which interface index it was last prepared with
+		cfg.Plugins = append(cfg.Plugins, &vfIdxPlugin{})
 		mm := NewMetrics(metricslite.NewMemory(), "v", time.Time{}, st, []config.Interface{cfg})
 		cctx := NewContext(nil, mm, st)
 		watchC := make(chan netstate.Change, 8)
@@ -177,18 +181,25 @@ func vfRunReinitLLA(t *testing.T, out *vfh.Out, tf time.Duration, dials []vfRein
 		cs := append([]*vfConn(nil), conns...)
 		mu.Unlock()
 		impl := new(vfh.Toks).N(len(cs))
+		implIdx := new(vfh.Toks).N(len(cs))
 		for _, c := range cs {
-			lla := 0
+			lla, idx := 0, 0
 			if ws := c.snapshot(); len(ws) > 0 && ws[0].ra != nil {
 				for _, o := range ws[0].ra.Options {
 					if l, ok := o.(*ndp.LinkLayerAddress); ok && l.Direction == ndp.Source && len(l.Addr) == 6 {
 						lla = int(l.Addr[5])
 					}
+					if pi, ok := o.(*ndp.PrefixInformation); ok {
+						if b := pi.Prefix.As16(); b[0] == 0xfd && b[1] == 0x1d {
+							idx = int(b[6])<<8 | int(b[7])
+						}
+					}
 				}
 			} else {
-				lla = 255 // nothing was sent on this connection
+				lla, idx = 255, 65535 // nothing was sent on this connection
 			}
 			impl.N(lla)
+			implIdx.N(idx)
 		}
 		cancel()
 		select {
@@ -200,8 +211,38 @@ func vfRunReinitLLA(t *testing.T, out *vfh.Out, tf time.Duration, dials []vfRein
 			c.N(dl.idx).N(dl.mac)
 		}
 		out.Line(c.String(), impl.String())
+		ci := new(vfh.Toks).S("reinidx").I(int64(tf)).N(len(dials))
+		for _, dl := range dials {
+			ci.N(dl.idx).N(dl.mac)
+		}
+		out.Line(ci.String(), implIdx.String())
 		out.Flush()
 	})
+}
+
+// vfIdxPlugin: contributes the prefix fd1d:0:0:<index>::/64 for the interface index it was last
+// prepared with (0 before any Prepare).
+type vfIdxPlugin struct {
+	mu  sync.Mutex
+	idx int
+}
+
+func (*vfIdxPlugin) Name() string     { return "vf-index" }
+func (p *vfIdxPlugin) String() string { return "vf-index" }
+func (p *vfIdxPlugin) Prepare(ifi *net.Interface) error {
+	p.mu.Lock()
+	p.idx = ifi.Index
+	p.mu.Unlock()
+	return nil
+}
+func (p *vfIdxPlugin) Apply(ra *ndp.RouterAdvertisement) error {
+	p.mu.Lock()
+	idx := p.idx
+	p.mu.Unlock()
+	a := [16]byte{0: 0xfd, 1: 0x1d, 6: byte(idx >> 8), 7: byte(idx)}
+	ra.Options = append(ra.Options, &ndp.PrefixInformation{PrefixLength: 64, OnLink: true,
+		ValidLifetime: time.Hour, PreferredLifetime: time.Hour, Prefix: netip.AddrFrom16(a)})
+	return nil
 }
 
 // verifReinitState: what a (re)initialisation reads of the system (the hardware address behind the
